@@ -27,7 +27,7 @@ META = {
     "rule": "case = module model + 3..8 type specs, some of them variants of another one with a single leaf replaced (instances of generated/builtin classes, list/set/dict generics, tuples, unions, "
             "None, Any, bare containers; via convert_type_hint or direct construction); laws: reflexivity (all types), transitivity "
             "of is_subtype (Any-free types), T <= Any, union rule (all / any for the maybe variant), is_subclass == closure of "
-            "declared bases + numeric tower on analysed classes, subtype_distance defined => is_maybe_subtype, distance(T,T)==0 for "
+            "declared bases + numeric tower on analysed classes (and is_subtype on argument-less instances agrees with it), subtype_distance defined => is_maybe_subtype, distance(T,T)==0 for "
             "types without Any/None components; non-trivial = the hierarchy has an inheritance edge and the types contain a "
             "generated class and a union or generic; distinct by the whole case",
     "assumptions": [
@@ -163,6 +163,16 @@ def evaluate(case: dict[str, Any]) -> Outcome:
             if isinstance(got, bool) and got != want:
                 out.fail(f"is_subclass|expected-{want}|{_class_category(left, desc)}-{_class_category(right, desc)}",
                          f"is_subclass({left}, {right}) == {got}, closure of declared bases + numeric tower says {want}")
+        # ---- L5b: on argument-less instances the subtype relations are exactly class subsumption
+        for a, b in itertools.product(types, repeat=2):
+            if ty.kind(a) == ty.kind(b) == "instance" and a.type.full_name in infos and b.type.full_name in infos:
+                n_eval += 1
+                want = ty.model_subclass_with_tower(desc, a.type.full_name, b.type.full_name)
+                for name in ("is_subtype", "is_maybe_subtype"):
+                    got = q(name, a, b)
+                    if isinstance(got, bool) and got != want:
+                        out.fail(f"instance-subtype-vs-class-hierarchy|{name}|expected-{want}",
+                                 f"{name}({a!r}, {b!r}) == {got}, class hierarchy (+ numeric tower) says {want}")
         # harness self-check: the model closure agrees with Python on the imported classes (never a pynguin failure)
         virtual_only = False
         for left, right in itertools.product(infos, repeat=2):
